@@ -337,4 +337,20 @@ def rule_c06r11(ctx):
     return r(ctx)
 
 
-RULES = [("C06-R11", rule_c06r11), ("C09-R1", rule_r1), ("C09-R2", rule_r2), ("C09-R3", rule_r3), ("C09-R4", rule_r4), ("C14-R5", rule_bootstrap)]
+def rule_c06r9(ctx):
+    """Alpha-renaming: a comprehension variable spelled like a captured / class-level name must still
+    be the comprehension's variable (shared rule C06-R9)."""
+    from .c06 import rule_r9 as r
+
+    return r(ctx)
+
+
+def rule_c06r3(ctx):
+    """Where a name is stored and where it is read from must not depend on how it was bound (an
+    imported alias in a class body, a parameter, ...): shared rule C06-R3."""
+    from .c06 import rule_r3 as r
+
+    return r(ctx)
+
+
+RULES = [("C06-R9", rule_c06r9), ("C06-R3", rule_c06r3), ("C06-R11", rule_c06r11), ("C09-R1", rule_r1), ("C09-R2", rule_r2), ("C09-R3", rule_r3), ("C09-R4", rule_r4), ("C14-R5", rule_bootstrap)]
